@@ -200,7 +200,7 @@ func ruleArithKind(c *Ctx) *RuleResult {
 	// operands after converting the integer to a float (float64(n) rounds beyond 2^53,
 	// so math.maxinteger < 2^63 came out false)
 	nh := 0
-	for _, hn := range []string{"ltIntAndFloat", "ltFloatAndInt", "leIntAndFloat", "leFloatAndInt"} {
+	for _, hn := range []string{"ltIntAndFloat", "ltFloatAndInt", "leIntAndFloat", "leFloatAndInt", "equalIntAndFloat"} {
 		h := p.Func("runtime", hn)
 		if h == nil {
 			r.broken("anchor unresolved: runtime.%s", hn)
@@ -220,7 +220,7 @@ func ruleArithKind(c *Ctx) *RuleResult {
 				return
 			}
 			switch bo.Op {
-			case token.LSS, token.LEQ, token.GTR, token.GEQ:
+			case token.LSS, token.LEQ, token.GTR, token.GEQ, token.EQL, token.NEQ:
 			default:
 				return
 			}
@@ -238,7 +238,7 @@ func ruleArithKind(c *Ctx) *RuleResult {
 			}
 		})
 		if badAt == "" {
-			r.ok("runtime." + hn + " does not order its operands through float64(integer operand)")
+			r.ok("runtime." + hn + " does not compare its operands through float64(integer operand)")
 		} else {
 			r.fail("inexact-mixed-comparison:"+hn, badAt, "runtime."+hn+" compares after converting its integer operand to a float: beyond 2^53 the conversion rounds, so e.g. math.maxinteger < 2^63 (and <= against 2^63, and their mirrors) give the wrong answer; the integer must be compared with the floor or ceiling of the float, which are exact")
 		}
